@@ -61,6 +61,7 @@ def construct(model, cname, args):
 
 
 _READER_CACHE = {}
+_READER_SHAPE = {}
 
 
 def reader_function(model):
@@ -69,14 +70,9 @@ def reader_function(model):
     and returns a pair of collections is the reader (its name and module do not matter)."""
     if model.root in _READER_CACHE:
         return _READER_CACHE[model.root]
-    try:
-        f = model.method(CLS, "__Class", "__extract_classes")
-        _READER_CACHE[model.root] = f
-        return f
-    except AnalysisError:
-        pass
     import ast as _ast
     found = []
+    stage = {}
 
     class Rec(PregexHooks):
         active = set()
@@ -91,16 +87,27 @@ def reader_function(model):
                     self.active.discard(target)
                 if isinstance(r, tuple) and len(r) == 2 and all(isinstance(x, (set, frozenset, list, _OrderedSet)) for x in r):
                     found.append(target)
+                    # the shape of the library's own call: the reader is later called the same way, with only the
+                    # class text replaced (no parameter list is assumed)
+                    if stage.get("union") and target is found[0]:
+                        _READER_SHAPE.setdefault(model.root, (list(args), dict(kwargs)))
                 return r
             return super().intercept(interp, target, args, kwargs, node)
     it = Interp(model, Rec(model), fuel=400000)
     try:
         a = it.construct(model.cls(CLS, "AnyFrom"), ["a", "c", "x"])
         b = it.construct(model.cls(CLS, "AnyBetween"), ["b", "f"])
+        stage["union"] = True
         it.binop(_ast.BitOr(), a, b, None)
     except PyRaise as e:
         raise AnalysisError(f"anchor vanished: a plain class union fails with {e.name}")
     if not found:
+        try:
+            f = model.method(CLS, "__Class", "__extract_classes")
+            _READER_CACHE[model.root] = f
+            return f
+        except AnalysisError:
+            pass
         raise AnalysisError("anchor vanished: no function of the class pipeline reads a class text into (ranges, characters)")
     _READER_CACHE[model.root] = found[0]
     return found[0]
@@ -110,9 +117,16 @@ def read_back(model, text):
     """Interpret the pipeline's reader on `text`: -> (ranges, chars) unescaped, or ('raise', exc)."""
     f = reader_function(model)
     it = Interp(model, PregexHooks(model))
+    is_cls_text = lambda x: isinstance(x, str) and x.startswith("[") and x.endswith("]")
     try:
-        kw = {"unescape": True} if "unescape" in f.params else {}
-        r = it.call(FuncRef(f), [text] + ([True] if not kw and len([p for p in f.params if p != "self"]) >= 2 else []), kw)
+        if model.root in _READER_SHAPE:
+            a0, k0 = _READER_SHAPE[model.root]
+            args = [text if is_cls_text(x) else x for x in a0]
+            kw = {k: (text if is_cls_text(v) else v) for k, v in k0.items()}
+            r = it.call(FuncRef(f), args, kw)
+        else:
+            kw = {"unescape": True} if "unescape" in f.params else {}
+            r = it.call(FuncRef(f), [text] + ([True] if not kw and len([p for p in f.params if p != "self"]) >= 2 else []), kw)
     except PyRaise as e:
         return "raise", e
     return set(r[0]), set(r[1])
@@ -337,6 +351,9 @@ def tables(model):
 
 
 def run(ctx, model):
+    from . import signatures as _sig
+    _n_sig = _sig.check(ctx, model, "R-SIGNATURE", lambda k: k.startswith(('pregex.core.classes:', 'pregex.core.tokens:')))
+    ctx.floor("R-SIGNATURE", _n_sig, 1, "public entry points")
     from spec.class_sets import CLASSES, TOKENS
     ctx.explanation = __doc__.strip().replace("\n", " ")
     ctx.assumptions += [
@@ -508,11 +525,36 @@ def run(ctx, model):
         try:
             it = Interp(model, PregexHooks(model), fuel=300000)
             o = it.construct(model.cls(CLS, cname), [a() if callable(a) else a for a in args])
-            return "ok", (pattern_of(o), o.fields.get("_Class__verbose"), o.fields.get("_Class__is_negated"))
+            from ..absdom import class_fields
+            f_neg, f_verb = class_fields(model)
+            return "ok", (pattern_of(o), o.fields.get(f_verb), o.fields.get(f_neg))
         except PyRaise as e:
             return "raise", e
         finally:
             interp_mod.SET_ORDER = 0
+
+    # argument FORMS: the same characters handed over as instances of str subclasses must give the same class
+    from ..witness import SubStr, LabelStr
+    form_cases = [("AnyFrom", ["a", "-", "z"]), ("AnyFrom", ["\\", "n"]), ("AnyFrom", ["^", "a"]), ("AnyFrom", ["]", "[", "b"]),
+                  ("AnyButFrom", ["a", "-", "z"]), ("AnyButFrom", ["^", "\\"]), ("AnyBetween", ["$", "a"]), ("AnyBetween", ["+", "-"]),
+                  ("AnyBetween", ["-", "a"]), ("AnyButBetween", ["$", "a"]), ("AnyButBetween", ["\\", "a"])]
+    for cname, plain_args in form_cases:
+        f = model.cls(CLS, cname).find_method("__init__")
+        ref = full(cname, plain_args, 0)
+        # (only the plain subclass: the pinned constructors stringify their arguments with str(), so an instance whose
+        #  __str__ shows something else than its characters is not "a character" for them - outside the property)
+        for wrap in (SubStr,):
+            for pos in range(len(plain_args) + 1):
+                args = [wrap(a_) if (pos == len(plain_args) or i == pos) else a_ for i, a_ in enumerate(plain_args)]
+                got = full(cname, args, 0)
+                inp = f"{cname}({', '.join(repr(str.__str__(a_)) for a_ in plain_args)}) with {wrap.__name__} at {'every position' if pos == len(plain_args) else pos}"
+                ctx.instance("R-PIPELINE", key=("form", inp))
+                same = (ref[0] == got[0]) and (ref[1] == got[1] if ref[0] == "ok" else ref[1].name == got[1].name)
+                if not same:
+                    ctx.violation("R-PIPELINE", f.relpath, f"{cname}.__init__", "argument form: instance of a str subclass",
+                                  "a character handed over as an instance of a subclass of str does not give the class that the plain "
+                                  "one-character string gives", f.node.lineno, inp=inp,
+                                  detail=f"plain: {ref[1] if ref[0] == 'ok' else ref[1].name}; subclass instance: {got[1] if got[0] == 'ok' else got[1].name}")
 
     pipeline_tasks = []
 
